@@ -384,9 +384,16 @@ func (g *G) goQuoteBytes(s Str) []*Term {
 		four := And(Not(two), Or(BVCmp("bvult", b, c8(0x20)), eq(0x7f)))
 		switch {
 		case g.branch(mkBool(two)):
-			second := Ite(eq('"'), c8('"'), Ite(eq('\\'), c8('\\'), Ite(eq(7), c8('a'), Ite(eq(8), c8('b'), Ite(eq(12), c8('f'),
-				Ite(eq('\n'), c8('n'), Ite(eq('\r'), c8('r'), Ite(eq('\t'), c8('t'), c8('v')))))))))
-			out = append(out, c8('\\'), second)
+			// fork on the character so that the escape letter is concrete (a reader of the
+			// quoted text can then decide what it means)
+			second := byte('v')
+			for _, p := range [][2]byte{{'"', '"'}, {'\\', '\\'}, {7, 'a'}, {8, 'b'}, {12, 'f'}, {'\n', 'n'}, {'\r', 'r'}, {'\t', 't'}} {
+				if g.branch(mkBool(eq(p[0]))) {
+					second = p[1]
+					break
+				}
+			}
+			out = append(out, c8('\\'), c8(second))
 		case g.branch(mkBool(four)):
 			out = append(out, c8('\\'), c8('x'), hex(BVBin("bvlshr", b, c8(4))), hex(BVBin("bvand", b, c8(15))))
 		default:
